@@ -856,11 +856,58 @@ def alpha(s, body):
 _DOM = {}
 
 
+def canon_literal(body, discr_term, dty, edge_vals, n_edges):
+    """Canonical text of what is known to hold after leaving a branch on `discr_term` along `edge_vals`.
+
+    Boolean tests become positive literals independent of how the source spelt them: `a > b`, `!(a <= b)`,
+    `b < a` and an `if`/`else` with swapped arms all give `b < a`; equalities have their operands sorted.  Other
+    switches (enum discriminants, three-way comparisons) read `discr(X) in {v, …}`; a three-way `cmp` has its
+    operands sorted and its outcomes renamed accordingly."""
+    from engine import orderlogic as OL
+    t = strip_deep(discr_term)
+    if dty == "bool" and len(edge_vals) == 1:
+        truth = edge_vals[0] != "0"
+        a = OL.atom(t)
+        while a[0] == "not":
+            a, truth = a[1], not truth
+        if a[0] == "cmp":
+            op, x, y = a[1], alpha(render(a[2]), body), alpha(render(a[3]), body)
+            if not truth:
+                op = {"<": ">=", "<=": ">", ">": "<=", ">=": "<", "==": "!=", "!=": "=="}[op]
+            if op in (">", ">="):
+                op, x, y = {">": "<", ">=": "<="}[op], y, x
+            if op in ("==", "!=") and y < x:
+                x, y = y, x
+            return "%s %s %s" % (x, op, y)
+        if a[0] == "const":
+            return "const %s" % (a[1] == truth)
+        txt = alpha(a[1] if a[0] == "opaque" else render(t), body)
+        return txt if truth else "!" + txt
+    txt = alpha(render(t), body)
+    vals = list(edge_vals)
+    m = re.match(r"^discr\(Ord::cmp\((.*)\)\)$", txt)
+    if t[0] == "discr" and strip_deep(t[1])[0] == "call" and (strip_deep(t[1])[3] or {}).get("name") == "cmp" and len(strip_deep(t[1])[2]) == 2:
+        c = strip_deep(t[1])
+        x, y = alpha(render(strip_deep(c[2][0])), body), alpha(render(strip_deep(c[2][1])), body)
+        names = {"255": "Less", "0": "Equal", "1": "Greater"}
+        if y < x:
+            x, y = y, x
+            names = {"255": "Greater", "0": "Equal", "1": "Less"}
+        known = [names.get(v) for v in vals if v != "else"]
+        if "else" in vals:
+            known = None
+        return "cmp(%s, %s) in {%s}" % (x, y, ",".join(sorted(known)) if known is not None else ",".join(vals))
+    return "%s in {%s}" % (txt, ",".join(vals))
+
+
 def dominating_guards(f, body, bb):
-    """Branch conditions every path to block `bb` has to pass: ['<discriminant> -> <edge values that can still reach bb>']."""
-    if body.name not in _DOM:
-        _DOM[body.name] = body.dominators()
-    dom = _DOM[body.name]
+    """What every path to block `bb` has established: canonical literals (see canon_literal) of the branches that
+    dominate `bb` and from some of whose edges `bb` cannot be reached."""
+    ent = _DOM.get(id(body))
+    if ent is None or ent[0] is not body:
+        ent = (body, body.dominators())
+        _DOM[id(body)] = ent
+    dom = ent[1]
     s = sym_of(body)
     out = []
     for sb in sorted(dom.get(bb, ())):
@@ -869,14 +916,18 @@ def dominating_guards(f, body, bb):
             continue
         edges = body.switch_edges(sb)
         ok_vals = []
+        listed = [v for v, _ in edges if v is not None]
         for v, tb in edges:
             if bb in body.reachable(tb, removed_blocks=[sb]) or tb == bb:
-                ok_vals.append("else" if v is None else str(v))
+                if v is None and t.get("dty") == "bool" and listed == [0]:
+                    ok_vals.append("1")
+                elif v is None and len(listed) == 1 and listed[0] in (0, 1) and "discr(" in render(strip_deep(s.operand(t["discr"])))[:6]:
+                    ok_vals.append(str(1 - listed[0]))       # two-variant enum: the otherwise edge is the other variant
+                else:
+                    ok_vals.append("else" if v is None else str(v))
         if len(ok_vals) < len(edges):
-            out.append("%s -> %s" % (alpha(render(strip_deep(s.operand(t["discr"])))[:200], body), ",".join(ok_vals)))
+            out.append(canon_literal(body, s.operand(t["discr"]), t.get("dty"), ok_vals, len(edges)))
     return out
-
-
 
 
 # ---------------------------------------------------------------------------
@@ -1042,10 +1093,10 @@ def check_revocation_lookup(ctx, f, which, rule="R-GRD"):
                         trues.append(g)
                     elif r == "result::Result::Ok{0: 0}":
                         falses.append(g)
-        want_t = [r"^discr\(Result::unwrap\(CrlEntry::take_opt_from\(%2\)\)\) -> 1$",
-                  r"^PartialEq::eq\(Result::unwrap\(CrlEntry::take_opt_from\(%2\)\)↓Some\.0\.user_certificate, \^\) -> else$"]
+        want_t = [r"^discr\(Result::unwrap\(CrlEntry::take_opt_from\(%2\)\)\) in \{1\}$",
+                  r"^Result::unwrap\(CrlEntry::take_opt_from\(%2\)\)↓Some\.0\.user_certificate == \^$"]
         ok = len(trues) == 1 and len(trues[0]) == 2 and all(re.match(w, g) for w, g in zip(want_t, trues[0])) and \
-            len(falses) == 1 and falses[0] == ["discr(Result::unwrap(CrlEntry::take_opt_from(%2))) -> else"]
+            len(falses) == 1 and falses[0] == ["discr(Result::unwrap(CrlEntry::take_opt_from(%2))) in {0}"]
         ctx.ob(rule, "%s::RevokedCertificates::contains:decision" % which.split("::")[-1], ok,
                "the revocation lookup returns true exactly when an entry's serial equals the requested one, false when the list "
                "is exhausted; no other condition takes part", where=b.loc, detail={"true_under": trues, "false_under": falses})
